@@ -22,7 +22,10 @@ ASSUMPTIONS = {
         'third-party Source / Chunk implementations are assumed to satisfy the trait contracts; the trait default body of '
         'Source::find_boundary is verified only as instantiated for [u8]',
         'impl<T: Deref> Source for T is not in the Verus unit (GAT unsupported): pure delegation, exercised by Kani only',
-        'Logos::lex of every derived impl is assumed to satisfy the trait-level contract LEX (checked, bounded, for the K-lex corpus)',
+        'Logos::lex of every derived impl is assumed to satisfy the trait-level contract LEX; for the V-lex corpus definitions (callback-free) it is PROVED '
+        'of the generated text for all inputs, for the others it is checked bounded (K-lex)',
+        'V-lex: a byte slice holds at most isize::MAX bytes (axiom_vlex_u8_slice_len); the generated impl method `lex` is external_body and its body is '
+        'verified as the free function `lex_body` carrying the same contract (rewrite L7); str definitions are verified with Source = [u8] (rewrite L6)',
         'machine integers are NOT treated as mathematical: Verus overflow obligations and Kani overflow checks are on',
         'user callbacks are assumed pure/total where a contract quantifies over them (con.requires for all arguments)',
     ],
@@ -40,6 +43,10 @@ ENGINES = [
          kind_free_text='Verus on SkipRetVal::construct and From<SkipResult> (separate file because of a Verus name-resolution limit)'),
     dict(name='V-cg', path='vx/contracts/v_cg.py', serves_properties=['C01'],
          kind_free_text='Verus on ByteClass::{new,add_byte,to_table}, Comparisons, StateType of logos-codegen/src/graph/mod.rs'),
+    dict(name='V-lex', path='vx/lexgen.py', serves_properties=['C02', 'C03', 'C05', 'C06', 'C07', 'C14'],
+         kind_free_text='Verus on the text logos_codegen::generate emits (through /repo\'s logos-cli, rebuilt from the working tree on every run) for corpus '
+                        'definitions, both code generators: every state function / the state-machine loop under contract; LEX, termination, overflow and '
+                        'index safety proved for all inputs'),
     dict(name='K-src', path='kani/src_proofs', serves_properties=['C05', 'C14', 'C15'],
          kind_free_text='Kani harnesses over the public/doc(hidden) runtime API: memory model for the unsafe code, twins of loop-free Verus contracts, native replay'),
     dict(name='K-cg', path='kani/cg_proofs.rs', serves_properties=['C01'],
@@ -265,7 +272,7 @@ PLAN = {
         kani=[KSRC_BOUNDARY] + klex_suite('K-lex error spans', SPEC_KINDS, ['E1', 'E2', 'B1', 'B2', 'U1', 'K2', 'L1'],
                         covers=['error produced', 'error longer than one byte'],
                         bounded=BOUND_NOTE % 'E1, E2, B1, B2, U1, K2, L1'),
-        technique='Verus proof that str::find_boundary returns the least char boundary >= its argument (loop invariant) and that end_to_boundary stores it; bounded model checking (Kani) of error items against the specified span rule',
+        technique='Verus proof that str::find_boundary returns the least char boundary >= its argument (loop invariant) and that end_to_boundary stores it; Verus proof (V-lex) that every item of the generated corpus lexers - errors included - covers at least one byte and ends inside the source, for all inputs; bounded model checking (Kani) of error items against the specified span rule',
         level_text='Rounding of error ends is proved for all strings and offsets; that the generated error arm reports [p, max(first non-viable byte, p+1)) rounded up, '
                    'with the default / callback-supplied error value, is checked (bounded) on the corpus.',
         level_note='Viability is computed by the spec combinators (prefix closure of each pattern); look-around patterns are not in the corpus.',
@@ -280,10 +287,11 @@ PLAN = {
         kani=klex_suite('K-lex progress and tiling', SPEC_KINDS, ['B1', 'B2', 'B5', 'E1', 'S1', 'S2', 'S3', 'U1', 'Q1', 'Q2', 'Q3', 'O2'],
                         covers=['end of input reached', 'token produced', 'token after a skipped region'],
                         bounded=BOUND_NOTE % 'B1, B2, B5, E1, S1, S2, U1, Q1, O2'),
-        technique='Verus proof that Iterator::next tiles the input for every lex satisfying the trait contract LEX; bounded model checking (Kani) that derived lex impls satisfy LEX',
+        technique='Verus proof that Iterator::next tiles the input for every lex satisfying the trait contract LEX; Verus proof (V-lex), for all inputs, that the code generated for the callback-free corpus definitions satisfies LEX and terminates (contracts on every state function / the state-machine loop, decreases measures); bounded model checking (Kani) of LEX and of the skip-only gaps for the rest of the corpus',
         level_text='Proved for every token type whose lex meets LEX: each item starts at or after the previous end, is non-empty and inside the source, None leaves an empty span at the end. '
-                   'LEX itself (non-empty items, None exactly at end of input, skips only between items) is checked bounded on the corpus with CBMC unwinding assertions on.',
-        level_note='The clause "no definition with an empty-matching pattern is accepted" is not decided (Graph::new / regex-automata out of reach).',
+                   'LEX itself (non-empty items, None exactly at end of input, termination of every attempt) is PROVED for all inputs for the generated code of 28 corpus definitions '
+                   '(tail-call generator: all 28; state-machine generator: 22) and checked bounded on the rest; that gaps consist of skip matches only is checked bounded (specification chains skips).',
+        level_note='The clause "no definition with an empty-matching pattern is accepted" is not decided (Graph::new / regex-automata out of reach). The quantifier over definitions is a corpus, not all definitions.',
         design_ref='DESIGN.md section 3 (C03)',
         explanation='LEX contract on Logos::lex, proved-from in V-src (Lexer::next, SpannedIter::next), checked-against in K-lex',
     ),
@@ -303,7 +311,7 @@ PLAN = {
         explanation='wf invariant includes boundary(token_start/end); K-lex asserts is_boundary on every span end over valid UTF-8 inputs',
     ),
     'C05': dict(
-        vlex=dict(defs=['B5', 'B7', 'B8', 'B1', 'E1', 'S1'], defs_thorough=VLEX_ALL, canary_defs=['B5']),
+        vlex=dict(defs=['B5', 'B7', 'B8', 'B1', 'E1', 'S1', 'Q2'], defs_thorough=VLEX_ALL, canary_defs=['B5']),
         level='model_checking', engine='verus+kani',
         verus=[('v_src', BOTH)],
         twins=SRC_TWINS,
@@ -311,7 +319,7 @@ PLAN = {
              + klex_suite('K-lex memory safety', SPEC_KINDS, ['B5', 'B7', 'B8', 'B1', 'B2', 'S2', 'U1', 'E2', 'E1'], always=['ctx_B5_abcdefghi_q_s0'],
                           covers=['token produced'], configs=((), ('forbid_unsafe',)),
                           bounded=BOUND_NOTE % 'B5 (lengths 0..10, crossing the 8-byte batch), B1, B2, S2, U1, E1; exactly sized stack arrays; default and forbid_unsafe builds'),
-        technique='Verus proof of the Source::read contract (all lengths, offsets, chunk sizes) and of slice/remainder bounds; CBMC object-bounds checking of the real unsafe code on exactly sized buffers',
+        technique='Verus proof of the Source::read contract (all lengths, offsets, chunk sizes) and of slice/remainder bounds; Verus proof (V-lex) that generated code keeps token_end <= len, indexes its tables in bounds and never overflows its offset arithmetic, for all inputs; CBMC object-bounds checking of the real unsafe code on exactly sized buffers',
         level_text='The second sentence of the property is the proved postcondition of Source::read for str and [u8]; slice()/remainder() are proved in bounds under the invariant; '
                    'every raw read of the real code is checked by CBMC inside its object for len <= 40 (offset unconstrained); whole lexers are checked bounded in both builds against one specification (hence equal to each other), no panic reachable in the forbid_unsafe build.',
         level_note='Chunk::from_ptr bodies are trusted to Verus (Kani-checked); impl<T: Deref> Source for T is Kani-only.',
@@ -319,12 +327,12 @@ PLAN = {
         explanation='Source::read contract + Kani memory model on exactly sized buffers',
     ),
     'C06': dict(
-        vlex=dict(defs=['B1', 'B2', 'B4', 'B5', 'B8', 'S1', 'S3', 'Q3', 'E2', 'L1', 'U2'], defs_thorough=VLEX_ALL, canary_defs=['B2']),
-        level='model_checking', engine='kani',
+        vlex=dict(defs=['B1', 'B2', 'B4', 'B5', 'B8', 'S1', 'S3', 'Q2', 'Q3', 'E2', 'L1', 'U2'], defs_thorough=VLEX_ALL, canary_defs=['B2']),
+        level='model_checking', engine='verus+kani',
         kani=klex_suite('K-lex both code generators', SPEC_KINDS, ['B1', 'B2', 'B4', 'B5', 'B8', 'E1', 'S2', 'S3', 'K1', 'U1', 'Q2'],
                         covers=['token produced', 'error produced'], configs=((), ('state_machine_codegen',)), quick_per_def=9, quick_cost=25,
                         bounded=BOUND_NOTE % 'B1, B2, B4, B5, E1, S2, K1, U1 under the tail-call and the state-machine generator'),
-        technique='bounded model checking (Kani/CBMC): the same harnesses against one deterministic specification under both code generators',
+        technique='bounded model checking (Kani/CBMC): the same harnesses against one deterministic specification under both code generators; Verus proof (V-lex) that the output of BOTH generators satisfies the same contract LEX for all inputs (not equality of results)',
         level_text='Both generated lexers are compared with the same specification (results, spans, callback invocation count and observed spans), so they agree on all explored inputs. Bounded.',
         level_note='The stack-space clause is not applicable (no contract language here expresses stack depth). Harness sets differ per generator where one of them is intractable for CBMC.',
         design_ref='DESIGN.md section 3 (C06)',
@@ -338,7 +346,7 @@ PLAN = {
         kani=klex_suite('K-lex partial lexing', ('part',), ['Q1', 'Q2', 'Q3', 'B1', 'B2', 'E1', 'S2', 'U1'],
                         covers=['partial lexer committed an item', 'partial lexer asked for more input'], quick_per_def=6,
                         bounded='relational: partial lexer over S[..k] vs one-shot lexer over S, every split point k of concrete contexts with a symbolic continuation byte; definitions Q1 (tests/partial.rs), B1, B2, E1, S2, U1'),
-        technique='relational bounded model checking (Kani): partial lexer on every prefix vs the one-shot lexer; Verus proof that a partial None leaves a well-formed empty span',
+        technique='relational bounded model checking (Kani): partial lexer on every prefix vs the one-shot lexer; Verus proof (V-src + V-lex) that a partial None leaves a well-formed empty span at or after the attempt start, in the runtime and in the generated code of the corpus definitions, for all inputs',
         level_text='Commit clause: whatever a partial lexer yields equals the one-shot item (result, variant, span) and a None leaves an empty span at a position not past the next one-shot item; bounded. The promptness clause is not decided.',
         level_note='Promptness ("as soon as determined") needs a determinedness predicate over all continuations: not expressible here.',
         design_ref='DESIGN.md section 3 (C07)',
@@ -401,7 +409,7 @@ PLAN = {
         kani=[KSRC_STATE] + klex_suite('K-lex call histories', ('hist',), ['B1B2'], covers=['history: an item after a morph', 'history: an item from a clone', 'history: an item from spanned()'], quick_per_def=6,
                                        bounded='real derived lexers B1/B2 over one source: next + morph (+ back), next + clone, spanned vs manual; concrete contexts with one symbolic byte'),
         engine='verus',
-        technique='deductive verification (Verus/Z3) of requires/ensures contracts and a representation invariant on the real Lexer code, extracted mechanically each run',
+        technique='deductive verification (Verus/Z3) of requires/ensures contracts and a representation invariant on the real Lexer code, extracted mechanically each run; the assumed contract LEX of derived impls is itself proved (V-lex) for the generated code of corpus definitions',
         level_text='Every public operation of Lexer and SpannedIter (new*, span, slice, remainder, morph, clone, bump, next, spanned, deref) is proved, '
                    'for all inputs and all type parameters, to preserve the representation invariant and to satisfy a postcondition that fixes all '
                    'five state components; the property is the standard consequence for every finite call history. Proof level is right because '
